@@ -353,3 +353,28 @@ Definition C09_scion_ok (sender : Z) (req : scion_hdr) (payload : list Z) (nts_v
         | _ => false
         end
    else match replies with [] => true | _ => false end).
+
+(* ---- every packet a SCION listener socket receives, not only those addressed to it ----
+   "It sends no NTP reply for any other payload": a packet whose host addresses cannot be
+   read, or whose L4 destination port is not the listener's, is not a request to the
+   listener at all and gets no reply.  One case is not silence: a well-addressed packet for
+   another L4 port that came in through the end-host port (30041) is relayed to that port on
+   the destination host (the dispatcher rule); what is then seen is the packet's own payload
+   on its way to somebody else, at most once - not a reply. *)
+Definition scion_addressed (conn_port local_port : Z) (h : scion_hdr) : bool :=
+  addr_ok (h_src_raw h) && addr_ok (h_dst_raw h) && (h_udp_dst h =? local_port) && negb (local_port =? endhost_port).
+
+Definition scion_forwarded (conn_port local_port : Z) (h : scion_hdr) : bool :=
+  addr_ok (h_src_raw h) && addr_ok (h_dst_raw h) && negb (h_udp_dst h =? local_port) &&
+  (conn_port =? endhost_port) && negb (h_udp_dst h =? endhost_port).
+
+Definition C09_scion_any_ok (sender conn_port local_port : Z) (req : scion_hdr) (payload : list Z)
+  (nts_valid : bool) (rev : option (Z * list Z)) (seen : list (Z * scion_hdr * list Z)) : bool :=
+  if scion_addressed conn_port local_port req then C09_scion_ok sender req payload nts_valid rev seen
+  else if scion_forwarded conn_port local_port req then
+    match seen with
+    | [] => true
+    | [(_, _, r)] => list_eqb r payload
+    | _ => false
+    end
+  else match seen with [] => true | _ => false end.
